@@ -37,6 +37,12 @@ func genC01(t *rapid.T) Case {
 		}
 		c.Ops = append(c.Ops, op)
 	}
+	// several files open at the same time, more than the database has workers
+	if rapid.IntRange(0, 5).Draw(t, "filesTogether") == 0 {
+		at := rapid.IntRange(0, len(c.Ops)).Draw(t, "filesAt")
+		fop := Op{K: "files", N: rapid.IntRange(2, 5).Draw(t, "nfiles"), Len: rapid.IntRange(0, 4000).Draw(t, "flen")}
+		c.Ops = append(c.Ops[:at:at], append([]Op{fop}, c.Ops[at:]...)...)
+	}
 	return c
 }
 
